@@ -1,10 +1,271 @@
 --------------------------------- MODULE Props ---------------------------------
 (***************************************************************************)
-(* The listed properties, stated over the specification's state            *)
-(* (vLines, vLine, vPs), each next to the sentence it formalises.          *)
-(* They are checked by TLC on every model-checking instance that extends   *)
-(* this module and, in the trace specifications, on every state of every   *)
-(* recorded execution of the implementation.                               *)
+(* The listed properties as predicates over OBSERVABLES only:              *)
+(*    lines   : the source, Seq(line as code points)                       *)
+(*    toks    : the tokens delivered to the builder, in order              *)
+(*    doc     : the AST (uniform records, see AstBuilder)                  *)
+(*    pickles : the compiler's output                                      *)
+(*    errs    : the error list                                             *)
+(* Nothing here mentions the parser position, the builder stack or any     *)
+(* other internal of the specification.  The same predicates are therefore *)
+(* evaluated (a) by TLC on the specification's own results in the model-   *)
+(* checking instances -- showing the specification has the property -- and *)
+(* (b) on the results RECORDED from the implementation in the trace        *)
+(* specifications -- showing each observed execution has it.               *)
+(* Each predicate stands next to the sentence of the property it encodes.  *)
 (***************************************************************************)
 EXTENDS Gherkin
+
+\* ------------------------------------------------------------------------------------------- AST traversal
+Feat(doc) == doc.feature[1]
+HasFeat(doc) == doc.feature # <<>>
+SeqToSet(s) == {s[j] : j \in 1..Len(s)}
+IsStrictInc(s) == \A j \in 1..(Len(s) - 1) : s[j] < s[j + 1]
+NoDup(s) == \A a, b \in 1..Len(s) : a # b => s[a] # s[b]
+
+\* All element lists of a document, computed ONCE (TLCEval forces the lazy function constructors into plain tuples;
+\* without it TLC re-derives a list at every application and the predicates below become exponential).
+Index(doc) ==
+   LET feats == IF HasFeat(doc) THEN <<Feat(doc)>> ELSE <<>>
+       rules == TLCEval(IF HasFeat(doc) THEN SelectSeq(Feat(doc).kids, LAMBDA x : x.t = "Rule") ELSE <<>>)
+       conts == TLCEval(feats \o rules)
+       bgs   == TLCEval(FlattenSeq([c \in 1..Len(conts) |-> SelectSeq(conts[c].kids, LAMBDA x : x.t = "Background")]))
+       sus   == TLCEval(IF HasFeat(doc) THEN ScenariosOf(Feat(doc)) ELSE <<>>)
+       scs   == TLCEval([j \in 1..Len(sus) |-> sus[j].sc])
+       exs   == TLCEval(FlattenSeq([j \in 1..Len(scs) |-> scs[j].examples]))
+       steps == TLCEval(FlattenSeq([j \in 1..Len(bgs) |-> bgs[j].steps]) \o FlattenSeq([j \in 1..Len(scs) |-> scs[j].steps]))
+       args  == TLCEval(FlattenSeq([j \in 1..Len(steps) |-> steps[j].arg]))
+       dts   == TLCEval(SelectSeq(args, LAMBDA a : a.t = "DataTable"))
+       dss   == TLCEval(SelectSeq(args, LAMBDA a : a.t = "DocString"))
+       tabs  == TLCEval([j \in 1..Len(dts) |-> dts[j].rows] \o SelectSeq([j \in 1..Len(exs) |-> exs[j].header \o exs[j].body], LAMBDA t : t # <<>>))
+       rows  == TLCEval(FlattenSeq(tabs))
+       owners == TLCEval(feats \o rules \o scs \o exs)
+       tags  == TLCEval(FlattenSeq([j \in 1..Len(owners) |-> owners[j].tags]))
+   IN [feats |-> feats, rules |-> rules, conts |-> conts, bgs |-> bgs, scs |-> scs, exs |-> exs, steps |-> steps, dts |-> dts, dss |-> dss,
+       tabs |-> tabs, rows |-> rows, owners |-> owners, tags |-> tags,
+       titled |-> TLCEval(feats \o rules \o bgs \o scs \o exs), kwnodes |-> TLCEval(feats \o rules \o bgs \o scs \o exs \o steps)]
+ExRows(ex) == ex.header \o ex.body
+LineOf(lines, n) == lines[n.line]
+LinesOf(ns) == [j \in 1..Len(ns) |-> ns[j].line]
+TokLinesOfType(toks, types) == LinesOf(SelectSeq(toks, LAMBDA t : t.type \in types))
+
+\* ------------------------------------------------------------------------------------------- C03
+(* "every feature, rule, background, scenario, examples block, step, data table row ..., doc string, tag and comment of
+   the source appears exactly once": the lines the AST mentions for each kind are exactly the lines the token stream has
+   of that kind, each once. *)
+P_C03_Once(toks, doc, ix) ==
+   /\ LinesOf(ix.feats) = TokLinesOfType(toks, {"FeatureLine"})
+   /\ SeqToSet(LinesOf(ix.rules)) = SeqToSet(TokLinesOfType(toks, {"RuleLine"})) /\ NoDup(LinesOf(ix.rules))
+   /\ SeqToSet(LinesOf(ix.bgs)) = SeqToSet(TokLinesOfType(toks, {"BackgroundLine"})) /\ NoDup(LinesOf(ix.bgs))
+   /\ SeqToSet(LinesOf(ix.scs)) = SeqToSet(TokLinesOfType(toks, {"ScenarioLine"})) /\ NoDup(LinesOf(ix.scs))
+   /\ SeqToSet(LinesOf(ix.exs)) = SeqToSet(TokLinesOfType(toks, {"ExamplesLine"})) /\ NoDup(LinesOf(ix.exs))
+   /\ SeqToSet(LinesOf(ix.steps)) = SeqToSet(TokLinesOfType(toks, {"StepLine"})) /\ NoDup(LinesOf(ix.steps))
+   /\ SeqToSet(LinesOf(ix.rows)) = SeqToSet(TokLinesOfType(toks, {"TableRow"})) /\ NoDup(LinesOf(ix.rows))
+   /\ LinesOf(doc.comments) = TokLinesOfType(toks, {"Comment"})
+   \* tags: the tags of a tag line, all of them and in order, once
+   /\ LET tagToks == SelectSeq(toks, LAMBDA t : t.type = "TagLine")
+          expected == FlattenSeq([j \in 1..Len(tagToks) |-> [m \in 1..Len(tagToks[j].items) |-> <<tagToks[j].line, tagToks[j].items[m].col, tagToks[j].items[m].text>>]])
+          got == [j \in 1..Len(ix.tags) |-> <<ix.tags[j].line, ix.tags[j].col, ix.tags[j].name>>]
+      IN SeqToSet(got) = SeqToSet(expected) /\ Len(got) = Len(expected)
+   \* doc strings: one per opening delimiter (delimiter tokens alternate open / close)
+   /\ LET seps == TokLinesOfType(toks, {"DocStringSeparator"})
+          opens == {seps[j] : j \in {x \in 1..Len(seps) : x % 2 = 1}}
+      IN SeqToSet(LinesOf(ix.dss)) = opens /\ NoDup(LinesOf(ix.dss))
+
+(* "under the right parent and in source order": walking the AST in document order meets strictly increasing lines, and
+   every child lies between its parent's line and the parent's next sibling. *)
+RECURSIVE WalkScenario(_), WalkSteps(_)
+WalkSteps(steps) == FlattenSeq([j \in 1..Len(steps) |-> <<steps[j].line>> \o
+                      (IF steps[j].arg = <<>> THEN <<>> ELSE IF steps[j].arg[1].t = "DataTable" THEN LinesOf(steps[j].arg[1].rows) ELSE <<steps[j].arg[1].line>>)])
+WalkScenario(sc) == <<sc.line>> \o WalkSteps(sc.steps) \o FlattenSeq([e \in 1..Len(sc.examples) |-> <<sc.examples[e].line>> \o LinesOf(ExRows(sc.examples[e]))])
+WalkKid(kid) == IF kid.t = "Background" THEN <<kid.line>> \o WalkSteps(kid.steps)
+                ELSE IF kid.t = "Scenario" THEN WalkScenario(kid)
+                ELSE <<kid.line>> \o FlattenSeq([j \in 1..Len(kid.kids) |-> IF kid.kids[j].t = "Background" THEN <<kid.kids[j].line>> \o WalkSteps(kid.kids[j].steps) ELSE WalkScenario(kid.kids[j])])
+Walk(doc) == IF HasFeat(doc) THEN <<Feat(doc).line>> \o FlattenSeq([j \in 1..Len(Feat(doc).kids) |-> WalkKid(Feat(doc).kids[j])]) ELSE <<>>
+P_C03_Order(doc, ix) ==
+   /\ IsStrictInc(Walk(doc))
+   /\ IsStrictInc(LinesOf(doc.comments))
+   \* grammar-imposed order of children: background first, then scenarios, then rules
+   /\ \A c \in SeqToSet(ix.conts) : \A a, b \in 1..Len(c.kids) :
+         a < b => /\ c.kids[b].t # "Background"
+                  /\ (c.kids[a].t = "Rule" => c.kids[b].t = "Rule")
+   \* tags stand before their owner, on lines after the previous element
+   /\ \A o \in SeqToSet(ix.owners) : \A j \in 1..Len(o.tags) : o.tags[j].line < o.line
+   /\ \A o \in SeqToSet(ix.owners) : \A a, b \in 1..Len(o.tags) : a < b =>
+         (o.tags[a].line < o.tags[b].line \/ (o.tags[a].line = o.tags[b].line /\ o.tags[a].col < o.tags[b].col))
+
+(* "Keywords are reported as written, names and step text are the remainder of the line with surrounding whitespace
+   removed". *)
+P_C03_Text(lines, doc, ix) ==
+   /\ \A n \in SeqToSet(ix.titled) : LET t == LTrim(LineOf(lines, n)) IN
+         StartsWith(t, n.kw \o <<COLON>>) /\ n.name = Trim(From(t, Len(n.kw) + 2))
+   /\ \A s \in SeqToSet(ix.steps) : LET t == LTrim(LineOf(lines, s)) IN
+         StartsWith(t, s.kw) /\ s.text = Trim(From(t, Len(s.kw) + 1))
+   /\ \A c \in SeqToSet(doc.comments) : c.text = StripEol(LineOf(lines, c))
+
+(* "a description starts at the first comment or text line after the keyword line and consists of the free-text lines from
+   there up to the next line the grammar reads as something else, verbatim, with comment lines left out and trailing blank
+   lines dropped".  Read off the token stream: after the keyword token skip Empty tokens; the maximal run of Other/Comment
+   tokens that follows is the description block. *)
+RECURSIVE SkipEmpty(_, _), RunEnd(_, _)
+SkipEmpty(toks, k) == IF k <= Len(toks) /\ toks[k].type = "Empty" THEN SkipEmpty(toks, k + 1) ELSE k
+RunEnd(toks, k) == IF k <= Len(toks) /\ toks[k].type \in {"Other", "Comment"} THEN RunEnd(toks, k + 1) ELSE k
+TokIndexAtLine(toks, ln) == CHOOSE k \in 1..Len(toks) : toks[k].line = ln
+RECURSIVE DropBlankTail(_)
+DropBlankTail(ss) == IF ss # <<>> /\ AllWs(ss[Len(ss)]) THEN DropBlankTail(SubSeq(ss, 1, Len(ss) - 1)) ELSE ss
+ExpectedDesc(lines, toks, n) ==
+   LET k == TokIndexAtLine(toks, n.line)
+       a == SkipEmpty(toks, k + 1)
+       b == RunEnd(toks, a)
+       others == SelectSeq(SubSeq(toks, a, b - 1), LAMBDA t : t.type = "Other")
+   IN JoinLF(DropBlankTail([j \in 1..Len(others) |-> StripEol(lines[others[j].line])]))
+P_C03_Desc(lines, toks, doc, ix) == \A n \in SeqToSet(ix.titled) : n.desc = ExpectedDesc(lines, toks, n)
+
+(* "Nothing that is not in the source appears in the AST": every line the AST mentions exists. *)
+P_C03_Within(lines, doc, ix) == \A ln \in SeqToSet(Walk(doc)) \cup SeqToSet(LinesOf(ix.tags)) \cup SeqToSet(LinesOf(doc.comments)) : ln \in 1..Len(lines)
+
+\* ------------------------------------------------------------------------------------------- C04
+(* "Reading the source at that position gives back the element's keyword, tag name, or raw cell text"; the column is that
+   of the first non-blank character of the line for keyword lines, steps, rows and delimiters. *)
+At(lines, n) == From(lines[n.line], n.col)
+RECURSIVE NextUnescPipe(_, _)
+NextUnescPipe(s, k) == IF k > Len(s) THEN k ELSE IF s[k] = BSL THEN NextUnescPipe(s, k + 2) ELSE IF s[k] = PIPE THEN k ELSE NextUnescPipe(s, k + 1)
+P_C04_ReadBack(lines, doc, ix) ==
+   /\ \A n \in SeqToSet(ix.kwnodes) : n.line \in 1..Len(lines) /\ n.col = Indent(lines[n.line]) + 1 /\ StartsWith(At(lines, n), n.kw)
+   /\ \A t \in SeqToSet(ix.tags) : t.line \in 1..Len(lines) /\ t.col >= 1 /\ StartsWith(At(lines, t), t.name) /\ t.name # <<>> /\ t.name[1] = AT
+   /\ \A r \in SeqToSet(ix.rows) : r.line \in 1..Len(lines) /\ r.col = Indent(lines[r.line]) + 1 /\ lines[r.line][r.col] = PIPE
+   /\ \A r \in SeqToSet(ix.rows) : \A c \in 1..Len(r.cells) :
+         LET cell == r.cells[c]  l == RTrim(lines[r.line])  stop == NextUnescPipe(l, cell.col) IN
+         /\ cell.col > r.col /\ cell.col <= Len(l)
+         /\ stop <= Len(l)                                                    \* the cell is closed by a pipe
+         /\ TrimBlanks(Unescape(SubSeq(l, cell.col, stop - 1))) = cell.value  \* raw text at the column reads back as the value
+         /\ (cell.value # <<>> => ~IsBlankNoLf(l[cell.col]))                  \* ... starting at its first non-blank character
+         /\ (cell.value = <<>> => l[cell.col] = PIPE)                         \* the closing pipe for an empty cell
+   /\ \A d \in SeqToSet(ix.dss) : d.line \in 1..Len(lines) /\ d.col = Indent(lines[d.line]) + 1 /\ StartsWith(At(lines, d), d.delim)
+   /\ \A c \in SeqToSet(doc.comments) : c.col = 1 /\ c.line \in 1..Len(lines)
+(* error locations: within the document (end of file: one line past the last), message position = location *)
+P_C04_ErrLoc(lines, errs) == \A j \in 1..Len(errs) : LET e == errs[j] IN
+   /\ e.line \in 1..(Len(lines) + 1)
+   /\ (e.kind = "eof" <=> e.line = Len(lines) + 1)
+   /\ (e.kind = "eof" => e.col = 0)
+   /\ (e.kind \in {"unexpected", "lang", "ragged"} => e.col = Indent(lines[e.line]) + 1)
+   /\ (e.kind = "tag" => e.col > Indent(lines[e.line]) /\ lines[e.line][e.col] = AT)
+   /\ (e.kind = "unexpected" => e.got = Trim(lines[e.line]))
+
+\* ------------------------------------------------------------------------------------------- C12
+(* "cells are the texts between consecutive unescaped '|' ... blanks (not line feeds) around the result are removed";
+   "rows differ in cell count is rejected": an accepted table is rectangular. *)
+P_C12_Cells(lines, doc, ix) == \A r \in SeqToSet(ix.rows) :
+   LET d == CellsDecl(lines[r.line]) IN
+   /\ Len(r.cells) = Len(d)
+   /\ \A c \in 1..Len(d) : r.cells[c].value = d[c].text /\ r.cells[c].col = d[c].col
+P_C12_Rect(doc, ix) == \A t \in SeqToSet(ix.tabs) : \A a, b \in 1..Len(t) : Len(t[a].cells) = Len(t[b].cells)
+
+\* ------------------------------------------------------------------------------------------- C13
+(* "Between an opening delimiter and the next line that starts with the same delimiter no line is interpreted as Gherkin;
+   content lines are reported verbatim, minus the opening delimiter's indentation (a less-indented line loses all of its
+   own), with the escaped form of the active delimiter turned back; the text after the opening delimiter is the media
+   type, absent when empty." *)
+RECURSIVE CloseLine(_, _, _)
+CloseLine(lines, k, d) == IF k > Len(lines) THEN k ELSE IF StartsWith(LTrim(lines[k]), d) THEN k ELSE CloseLine(lines, k + 1, d)
+ContentLine(l, ind, d) == LET body == IF Indent(l) >= ind THEN From(l, ind + 1) ELSE LTrim(l) IN StripEol(ReplAll(body, Esc(d), d))
+P_C13_DocStrings(lines, toks, doc, ix) == \A d \in SeqToSet(ix.dss) :
+   LET open == lines[d.line]
+       close == CloseLine(lines, d.line + 1, d.delim)
+       ind == Indent(open)
+       rest == Trim(From(LTrim(open), 4))
+   IN /\ d.delim \in {Q3, B3}
+      /\ close <= Len(lines)                                                      \* accepted => it is closed
+      /\ d.content = JoinLF([k \in 1..(close - d.line - 1) |-> ContentLine(lines[d.line + k], ind, d.delim)])
+      /\ d.media = (IF rest = <<>> THEN <<>> ELSE <<rest>>)
+      \* opaque: every line strictly inside was delivered as free text, the closing line as a delimiter
+      /\ \A t \in SeqToSet(toks) : (t.line > d.line /\ t.line < close => t.type = "Other") /\ (t.line = close => t.type = "DocStringSeparator")
+
+\* ------------------------------------------------------------------------------------------- C05 (per document part)
+(* "the AST reports the keyword exactly as listed (the first listed step keyword that prefixes the line ...), the feature
+   reports the dialect in force, steps get the keyword type of the keyword's category" *)
+P_C05_Doc(lines, doc, dialectKey, ix) == HasFeat(doc) =>
+   LET D == Dialects[dialectKey] IN
+   /\ Feat(doc).lang = LangNames[dialectKey]
+   /\ FirstKw(LTrim(LineOf(lines, Feat(doc))), D.feature, <<COLON>>) = <<Feat(doc).kw>>
+   /\ \A n \in SeqToSet(ix.rules) : FirstKw(LTrim(LineOf(lines, n)), D.rule, <<COLON>>) = <<n.kw>>
+   /\ \A n \in SeqToSet(ix.bgs) : FirstKw(LTrim(LineOf(lines, n)), D.background, <<COLON>>) = <<n.kw>>
+   /\ \A n \in SeqToSet(ix.exs) : FirstKw(LTrim(LineOf(lines, n)), D.examples, <<COLON>>) = <<n.kw>>
+   /\ \A n \in SeqToSet(ix.scs) : LET a == FirstKw(LTrim(LineOf(lines, n)), D.scenario, <<COLON>>) IN
+         (IF a # <<>> THEN a ELSE FirstKw(LTrim(LineOf(lines, n)), D.scenarioOutline, <<COLON>>)) = <<n.kw>>
+   /\ \A s \in SeqToSet(ix.steps) : FirstKw(LTrim(LineOf(lines, s)), StepKws(D), <<>>) = <<s.kw>> /\ s.kwt = KwType(D, s.kw)
+\* the dialect in force: the default unless a language header stands before any tag or feature line
+RECURSIVE HeaderDialect(_, _, _)
+HeaderDialect(lines, k, default) ==
+   IF k > Len(lines) THEN default
+   ELSE LET nm == LangName(lines[k])  hits == {d \in DOMAIN LangNames : LangNames[d] = nm} IN
+        IF nm # <<>> /\ hits # {} THEN CHOOSE x \in hits : TRUE
+        ELSE IF Empty(lines[k]).ok \/ Comment(lines[k]).ok THEN HeaderDialect(lines, k + 1, default)
+        ELSE default
+DialectInForce(lines, default) == HeaderDialect(lines, 1, default)
+
+\* ------------------------------------------------------------------------------------------- C06 .. C11 (compiler)
+\* the expected pickles (without ids) of a document, computed once
+EPs(doc, uri) == LET us == Units(doc) IN TLCEval([j \in 1..Len(us) |-> LET e == ExpectedPickle(doc, uri, us[j]) IN [e EXCEPT !.steps = TLCEval(e.steps)]])
+(* C06: one pickle per scenario without examples and per body row of each examples table with a header, in document order,
+   each with uri, language, (interpolated) name and the ids of scenario and row *)
+P_C06(pickles, eps) ==
+   /\ Len(pickles) = Len(eps)
+   /\ \A j \in 1..Len(eps) : /\ pickles[j].astNodeIds = eps[j].astNodeIds /\ pickles[j].uri = eps[j].uri
+                              /\ pickles[j].language = eps[j].language /\ pickles[j].name = eps[j].name
+(* C07: steps = feature background, rule background, own steps; none for a step-less scenario; arguments carried *)
+P_C07(pickles, eps) ==
+   Len(pickles) = Len(eps) /\ \A j \in 1..Len(eps) :
+      /\ Len(pickles[j].steps) = Len(eps[j].steps)
+      /\ \A k \in 1..Len(eps[j].steps) : pickles[j].steps[k].astNodeIds = eps[j].steps[k].astNodeIds /\ pickles[j].steps[k].arg = eps[j].steps[k].arg
+(* C08: tags = feature, rule, scenario, examples tags in order, repetitions kept, each with name and AST tag id *)
+P_C08(pickles, eps) == Len(pickles) = Len(eps) /\ \A j \in 1..Len(eps) : pickles[j].tags = eps[j].tags
+(* C09: placeholders replaced in name, step text, cells, doc string content and media type; not in background steps *)
+P_C09(pickles, eps) ==
+   Len(pickles) = Len(eps) /\ \A j \in 1..Len(eps) :
+      /\ pickles[j].name = eps[j].name
+      /\ Len(pickles[j].steps) = Len(eps[j].steps)
+      /\ \A k \in 1..Len(eps[j].steps) : pickles[j].steps[k].text = eps[j].steps[k].text /\ pickles[j].steps[k].arg = eps[j].steps[k].arg
+(* C10: every pickle step has a definite type derived from its keyword *)
+StepTypes == {"Unknown", "Context", "Action", "Outcome"}
+P_C10(pickles, eps) ==
+   Len(pickles) = Len(eps) /\ \A j \in 1..Len(eps) :
+      /\ Len(pickles[j].steps) = Len(eps[j].steps)
+      /\ \A k \in 1..Len(eps[j].steps) : pickles[j].steps[k].type \in StepTypes /\ pickles[j].steps[k].type = eps[j].steps[k].type
+(* C11: ids unique and dense from nid0, in the canonical order; references resolve to nodes of the right kind *)
+RowsOfStep(s) == IF s.arg # <<>> /\ s.arg[1].t = "DataTable" THEN s.arg[1].rows ELSE <<>>
+IdsSteps(steps) == FlattenSeq([j \in 1..Len(steps) |-> [m \in 1..Len(RowsOfStep(steps[j])) |-> RowsOfStep(steps[j])[m].id] \o <<steps[j].id>>])
+IdsTags(o) == [j \in 1..Len(o.tags) |-> o.tags[j].id]
+IdsExamples(ex) == [m \in 1..Len(ExRows(ex)) |-> ExRows(ex)[m].id] \o IdsTags(ex) \o <<ex.id>>
+IdsScenario(sc) == IdsSteps(sc.steps) \o FlattenSeq([e \in 1..Len(sc.examples) |-> IdsExamples(sc.examples[e])]) \o IdsTags(sc) \o <<sc.id>>
+IdsBackground(b) == IdsSteps(b.steps) \o <<b.id>>
+IdsKid(kid) == IF kid.t = "Background" THEN IdsBackground(kid) ELSE IF kid.t = "Scenario" THEN IdsScenario(kid)
+               ELSE FlattenSeq([j \in 1..Len(kid.kids) |-> IF kid.kids[j].t = "Background" THEN IdsBackground(kid.kids[j]) ELSE IdsScenario(kid.kids[j])]) \o IdsTags(kid) \o <<kid.id>>
+CanonicalAstIds(doc) == IF HasFeat(doc) THEN FlattenSeq([j \in 1..Len(Feat(doc).kids) |-> IdsKid(Feat(doc).kids[j])]) \o IdsTags(Feat(doc)) ELSE <<>>
+CanonicalPickleIds(pickles) == FlattenSeq([j \in 1..Len(pickles) |-> [k \in 1..Len(pickles[j].steps) |-> pickles[j].steps[k].id] \o <<pickles[j].id>>])
+P_C11_Canonical(doc, pickles, nid0) == LET ids == CanonicalAstIds(doc) \o CanonicalPickleIds(pickles) IN ids = [j \in 1..Len(ids) |-> nid0 + j - 1]
+IdSet(ns) == {ns[j].id : j \in 1..Len(ns)}
+P_C11_Refs(doc, pickles, ix) == \A j \in 1..Len(pickles) : LET p == pickles[j] IN
+   /\ Len(p.astNodeIds) \in {1, 2} /\ p.astNodeIds[1] \in IdSet(ix.scs)
+   /\ (Len(p.astNodeIds) = 2 => p.astNodeIds[2] \in IdSet(FlattenSeq([e \in 1..Len(ix.exs) |-> ix.exs[e].body])))
+   /\ \A k \in 1..Len(p.steps) : /\ p.steps[k].astNodeIds[1] \in IdSet(ix.steps)
+                                 /\ (Len(p.steps[k].astNodeIds) = 2 => p.steps[k].astNodeIds[2] = p.astNodeIds[2])
+   /\ \A k \in 1..Len(p.tags) : p.tags[k].astNodeId \in IdSet(ix.tags)
+
+\* ------------------------------------------------------------------------------------------- C14 / C01 (outcome)
+ErrKinds == {"unexpected", "eof", "tag", "lang", "ragged"}
+P_C01_Outcome(errs, cap) == Len(errs) <= cap /\ \A j \in 1..Len(errs) : errs[j].kind \in ErrKinds /\ errs[j].line >= 1
+P_C14_Once(errs) == NoDup(errs)
+\* ------------------------------------------------------------------------------------------- C18
+(* "the AST builder receives exactly one token per physical line, in source order and with that line's number, followed by
+   exactly one end-of-file token" *)
+P_C18_Accepted(lines, toks) == /\ Len(toks) = Len(lines) + 1
+                               /\ \A j \in 1..Len(toks) : toks[j].line = j
+                               /\ toks[Len(toks)].type = "EOF" /\ \A j \in 1..Len(lines) : toks[j].type # "EOF"
+(* rejected: every line is delivered or reported as unexpected, never both, never neither, up to the end of the parse *)
+P_C18_Partition(lines, toks, errs, cap) ==
+   LET dl == LinesOf(toks)  rl == LinesOf(SelectSeq(errs, LAMBDA e : e.kind \in {"unexpected", "eof"})) IN
+   /\ IsStrictInc(dl) /\ NoDup(rl)
+   /\ SeqToSet(dl) \cap SeqToSet(rl) = {}
+   /\ (Len(errs) < cap => SeqToSet(dl) \cup SeqToSet(rl) = 1..(Len(lines) + 1))
 =============================================================================
